@@ -386,8 +386,11 @@ func StopIterationValue(err interface{}) Object {
 }
 
 func (e *Exception) M__str__() (Object, error) {
-	msg := e.Args.(Tuple)[0]
-	return msg, nil
+	args, _ := e.Args.(Tuple)
+	if len(args) == 0 {
+		return String(""), nil
+	}
+	return args[0], nil
 }
 
 func (e *Exception) M__repr__() (Object, error) {
